@@ -25,6 +25,7 @@ from concurrent.futures import ThreadPoolExecutor
 
 from pv import core
 from pv import c14_real as real
+from pv import c14_suite as suite
 from pv import c14_universes as unis
 
 PROP = "C14"
@@ -186,7 +187,25 @@ def _m_iadd(case, clause, _detail, _f):
             and c in post["children"][q - 1] and post["children"][p - 1] == [])
 
 
+def _m_omp_lowering_plain_list(case, clause, _detail, _f):
+    # binding B: OMPParallelDirective.lower_to_language_level() replaces the
+    # ChildrenList by a plain list (self._children = self._children[:2]); the
+    # addchild() calls that follow append the new clauses without parent link
+    if not (str(case.get("binding", "")).startswith("B")
+            and case["op"] == "addchild" and case["outcome"] == "returned"
+            and clause == "ParentChildAgree"
+            and case["nodes"]["1"].startswith("OMPParallel")):
+        return False
+    item = case["items"][0]
+    return (case["category_kind"][item - 1] in ("OMPPrivateClause",
+                                                "OMPFirstprivateClause")
+            and case["post"]["children"][0][-1] == item
+            and case["post"]["parent"][item - 1] == 0
+            and case["post"]["children"][0][:-1] == case["pre"]["children"][0])
+
+
 MATCHERS = {
+    "omp_lowering_plain_list": _m_omp_lowering_plain_list,
     "iadd": _m_iadd,
     "cycle": _m_cycle,
     "negative_index": _m_negative_index,
@@ -376,6 +395,51 @@ def _case(uni_name, kinds, rec, source, history=None):
     }
 
 
+# ------------------------------------------------------- binding B (code -> spec)
+
+def _binding_b(out, cov, handle, tmp, tier):
+    import time
+    t0 = time.time()
+    dumps, summary, prc = suite.collect(handle, 3000)
+    _log(f"test subset finished: {summary} (exit {prc})")
+    shapes, stats = suite.merge(dumps)
+    verdicts, skipped, st, gen = suite.validate(tmp, shapes, PAR)
+    _log(f"binding B: {stats['events']} events, {len(shapes)} distinct, "
+         f"{len(verdicts)} verdicts, {len(skipped)} not judged")
+    cov["states"] += st
+    cov["transitions"] += gen
+    cov["traces_validated_against_impl"] += len(shapes)
+    judged = sum(s["count"] for i, s in enumerate(shapes) if i not in skipped)
+    pos = sum(s["count"] for i, s in enumerate(shapes)
+              if i not in skipped and s["kp"][0] != "?")
+    for idx in sorted(verdicts):
+        out.violation(suite.case_of(shapes[idx]), verdicts[idx],
+                      {"binding": "B", "tests": shapes[idx]["tests"]})
+    sample = shapes[len(shapes) // 2] if shapes else None
+    cov["binding_B"] = {
+        "test_paths": handle["dirs"], "tests_result": summary, "pytest_exit": prc,
+        "wait_s": round(time.time() - t0, 1),
+        "events_recorded": stats["events"], "events_by_operation": stats["by_op"],
+        "refusals_recorded": stats["raised"],
+        "distinct_events": len(shapes),
+        "distinct_events_validated_by_TLC": len(shapes),
+        "events_judged": judged,
+        "events_with_position_validity_judged": pos,
+        "events_not_judged_pre_state_ill_formed": stats["events"] - judged,
+        "distinct_not_judged": len(skipped),
+        "recorder_skipped": stats["recorder_skipped"],
+        "violating_distinct_events": len(verdicts),
+        "not_judged_samples": [
+            dict(suite.case_of(shapes[i]), reason=skipped[i]) for i in sorted(skipped)[:4]],
+        "kinds": stats["kinds"],
+    }
+    if sample:
+        cov["samples"].append({"binding": "B", **{k: sample[k] for k in (
+            "op", "index", "exc", "classes", "pre", "post", "count", "test")}})
+    if prc not in (0, 1):
+        raise core.MachineryError(f"C14 binding B: pytest exit {prc}: {summary}")
+
+
 # ------------------------------------------------------------------- the check
 
 def run(tier, corrupt=None):
@@ -388,12 +452,20 @@ def run(tier, corrupt=None):
     tmp = core.mktemp("pv-c14-")
     ulist = unis.universes(tier)
     hlist = unis.history_universes(tier, core.seed())
+    # PV_C14_BINDINGS=A|B|AB (demonstrations): which bindings run
+    bindings = os.environ.get("PV_C14_BINDINGS", "AB").upper()
+    if "A" not in bindings:
+        ulist, hlist = [], []
     if os.environ.get("PV_C14_ONLY"):       # development aid: subset of universes
         only = os.environ["PV_C14_ONLY"].split(",")
         ulist = [u for u in ulist if u["name"] in only]
         hlist = [u for u in hlist if u["name"] in only]
     _log("start")
     try:
+        # binding B runs beside binding A: the repository's tests under the recorder
+        handle = None
+        if "B" in bindings:
+            handle = suite.start(tmp, tier, min(8, PAR))
         # 1. the model: check + dump transitions; generate long histories
         with ThreadPoolExecutor(max_workers=PAR) as ex:
             fut_d = [ex.submit(_dump, (tmp, u)) for u in ulist]
@@ -544,6 +616,8 @@ def run(tier, corrupt=None):
                        "reachable graph within the history bound) or one step of a "
                        "generated long history; non-trivial = the call succeeded in "
                        "the model or in the implementation, or was judged a violation")
+        if handle is not None:
+            _binding_b(out, cov, handle, tmp, tier)
         for idx in (0, n_exh // 2, n_exh - 1, len(records) - 1):
             if 0 <= idx < len(records):
                 u, rec = records[idx]
@@ -553,6 +627,8 @@ def run(tier, corrupt=None):
                      "outcome": "raised " + rec[4] if rec[3] else "returned",
                      "post": rec[5]})
     finally:
+        if handle is not None and handle["proc"].poll() is None:
+            handle["proc"].kill()
         shutil.rmtree(tmp, ignore_errors=True)
     if cov["unsupported"] * 5 > max(1, cov["evaluations"]):
         raise core.MachineryError("more than 20% of the cases are unsupported")
@@ -564,4 +640,10 @@ def run(tier, corrupt=None):
         "nodes are created without constructor `parent=`/`children=` arguments; "
         "slice assignment/deletion and sort() are not in the alphabet",
         "projection: ids of node.children / node.parent objects (trusted)",
+        "binding B: only the neighbourhood of the edited node is recorded (the "
+        "node, its children, the items and the items' parents); position validity "
+        "is judged only for classes that use the validation of a kind of "
+        "PSyIRTree.tla's table unchanged (evidence.binding_B.kinds: 'KP/KC'; "
+        "KP '?' = not judged); a pending constructor parent counts as no parent; "
+        "events whose recorded pre-state is already ill-formed are not judged",
     ])
